@@ -2,7 +2,7 @@
    error bound of the returned point, returned value = f(returned point), quality under a Lipschitz bound. *)
 From SV Require Import Alg.Golden.
 From Coq Require Import Reals Lra Psatz.
-Open Scope R_scope.
+Local Open Scope R_scope.
 
 Definition rho : R := (sqrt 5 - 1) / 2.
 
